@@ -173,6 +173,11 @@ type GenOptions struct {
 	DiffSize   int      // max entries per diff section
 	EmptyDiffs int      // percent of blocks with an empty state diff
 	NoClasses  bool     // never declare classes
+	// SystemDrain allows zero / same-value writes to the system contracts 0x1, 0x2. Off by
+	// default: when such a write leaves a system contract with empty storage the two state
+	// backends compute different roots (finding owned by C01), so a chain containing it cannot be
+	// stored on the other backend than the one that produced it.
+	SystemDrain bool
 }
 
 func DefaultGenOptions() GenOptions {
@@ -393,7 +398,11 @@ func (g *ChainGen) GenDiff(s *AbsState, blockNumber uint64, version string) (*co
 			a := Pick(r, targets)
 			k := g.Slot(r.Intn(g.Opt.NSlots))
 			var v *felt.Felt
-			switch r.Intn(6) {
+			choice := r.Intn(6)
+			if !g.Opt.SystemDrain && (a == g.Addr(0) || a == g.Addr(1)) {
+				choice = 2 + r.Intn(4) // non-zero values only
+			}
+			switch choice {
 			case 0:
 				v = F(0) // write zero (delete, or no-op on a never-written slot)
 			case 1:
